@@ -299,7 +299,7 @@ func genSpec(t *rapid.T, depth int) goval.Spec {
 		}
 		return s
 	default:
-		return goval.Spec{K: "struct", Struct: rapid.SampledFrom([]string{"Inner", "PtrInner", "Flat", "Outer", "Outer", "EmbPtr"}).Draw(t, "struct"), Fields: genFamily(t)}
+		return goval.Spec{K: "struct", Struct: rapid.SampledFrom([]string{"Inner", "PtrInner", "Flat", "Outer", "Outer", "EmbPtr", "Tagged", "Cross"}).Draw(t, "struct"), Fields: genFamily(t)}
 	}
 }
 
